@@ -8,8 +8,9 @@ for k in range(8):
     JOBS.append(dict(F, name='cleanup_tpl%d' % k, src='c14.cpp', fn='h_cleanup_tpl', defines={'QM_STR_CAP': 24, 'VF_TPL': k}, unwind=28, timeout=1800, mem=12, tiers=['quick', 'thorough'] if k in (0, 2, 6) else ['thorough']))
 JOBS += [
     dict(F, name='pattern_raw', src='c14.cpp', fn='h_pattern_raw', defines={'QM_STR_CAP': 8, 'QM_LIST_CAP': 6, 'QM_HASH_CAP': 6, 'VF_N': 3}, defines_thorough={'VF_N': 4}, unwind=12, timeout=1800, mem=16),
-    dict(F, name='pattern_alloc', src='c14.cpp', fn='h_pattern_alloc', defines={'QM_STR_CAP': 26, 'QM_LIST_CAP': 4, 'QM_HASH_CAP': 6}, unwind=30, timeout=900),
-    dict(F, name='pretty', src='c14.cpp', fn='h_pretty', defines={'QM_STR_CAP': 12, 'QM_LIST_CAP': 4, 'QM_HASH_CAP': 4}, unwind=16, timeout=900),
+    dict(name='pattern_alloc3', src='c14.cpp', fn='h_pattern_alloc', defines={'QM_STR_CAP': 26, 'QM_LIST_CAP': 4, 'QM_HASH_CAP': 6, 'VF_ND': 3}, unwind=30, timeout=900),
+    dict(name='pattern_alloc10', src='c14.cpp', fn='h_pattern_alloc', defines={'QM_STR_CAP': 26, 'QM_LIST_CAP': 4, 'QM_HASH_CAP': 6, 'VF_ND': 10}, unwind=30, timeout=900),
+    dict(F, name='pretty', src='c14.cpp', fn='h_pretty', defines={'QM_STR_CAP': 20, 'QM_LIST_CAP': 4, 'QM_HASH_CAP': 4}, unwind=24, timeout=900),
     dict(F, name='catfilter_raw', src='c14.cpp', fn='h_catfilter_raw', defines={'QM_STR_CAP': 14, 'QM_LIST_CAP': 3, 'QM_HASH_CAP': 6, 'QM_RX_FLAT': 1, 'VF_N': 3}, unwind=18, unwind_patterns={'CategoryFilter10parseRules': 4, 'CategoryFilter6filter': 4}, timeout=1800, mem=16),
 ]
 for k in range(7):
